@@ -42,6 +42,7 @@ import (
 	"mosn.io/mosn/pkg/types"
 	"mosn.io/mosn/pkg/verifrt/c09"
 	"mosn.io/mosn/pkg/verifrt/vfake"
+	"mosn.io/mosn/pkg/verifrt/vreport"
 	"mosn.io/pkg/buffer"
 	"mosn.io/pkg/variable"
 )
@@ -214,6 +215,16 @@ func (c09PingPong) Books(pool types.ConnectionPool) c09.Books {
 		b.Idle = append(b.Idle, c09.ClientBook{Conn: c09Fake(c.host.Connection), Flags: fmt.Sprintf("closed=%v,shouldClose=%v", c.closed, c.shouldCloseConn)})
 	}
 	return b
+}
+
+// LimitEvents (c09.RuntimeLimits): max_connections of the cluster's live resource manager is changed at
+// runtime by a cluster update, anywhere in a history: quick <= 2 changes per history to 1 or 2,
+// thorough <= 3 changes to 0 (unlimited), 1 or 2.
+func (c09PingPong) LimitEvents() (int, []uint32) {
+	if vreport.Thorough() {
+		return 3, []uint32{0, 1, 2}
+	}
+	return 2, []uint32{1, 2}
 }
 
 func TestVerifC09PingPong(t *testing.T) {
